@@ -411,6 +411,8 @@ def P24(m, R):
 # ----------------------------------------------------------------------------------------------------------------------
 def _while_progress(R, f, lp, cfg, cons, measure_var, measure_len, extra=None):
     """On every path head -> head the measure len(measure_len) - measure_var strictly decreases."""
+    from ..shapes import local_aliases, canon
+    al = local_aliases(f)
     head = cfg.loop_of[lp]
     first = [n for l, n in head.succ if l is True]
 
@@ -429,7 +431,7 @@ def _while_progress(R, f, lp, cfg, cons, measure_var, measure_len, extra=None):
                 if k > 1:
                     env['#skip'] = (k, st.lineno)
             else:
-                sym += ((sign, norm(st.value)),)
+                sym += ((sign, canon(st.value, al)),)
         elif isinstance(st, ast.Assign) and norm(st.targets[0]) == measure_var:
             sym += ((0, 'assigned ' + norm(st.value)),)
         elif isinstance(st, ast.Delete) and any(isinstance(t, ast.Subscript) and norm(t.value) == measure_len for t in st.targets):
